@@ -40,13 +40,13 @@ static int P_C01, P_C09, P_C12, P_C16;
 enum {
     OP_INIT_OBJ, OP_INIT_ARR, OP_RESET, OP_VERIFY, OP_NEXT, OP_NEXT_ENS_INT, OP_NEXT_ENS_OBJ, OP_INTO_OBJ, OP_INTO_ARR, OP_LEAVE_OBJ, OP_LEAVE_ARR,
     OP_GET_NAME, OP_GET_RAW, OP_TOSTR_NULL, OP_TOSTR_TINY, OP_TOSTR_AMPLE, OP_PRINT,
-    OP_FIELD_A, OP_FIELD_B, OP_FIELD_EMPTY, OP_FIELDZ_A, OP_ENSURE_A_INT, OP_FIELD_NULL, NOPS,
+    OP_FIELD_A, OP_FIELD_B, OP_FIELD_EMPTY, OP_FIELDZ_A, OP_FIELD_LONG, OP_ENSURE_A_INT, OP_FIELD_NULL, NOPS,
     OP_OTHERBUF = NOPS      /* pseudo operation (C12 only): init_object / init_array on each of 7 OTHER buffers, compared with a fresh parser */
 };
 static const char *const opname[NOPS + 1] = {
     "init_object", "init_array", "reset", "verify", "next", "next_ensure(INTEGER)", "next_ensure(OBJECT)", "go_into_object", "go_into_array",
     "leave_object", "leave_array", "get_name", "get_raw", "to_string(NULL)", "to_string(cap=3)", "to_string(cap=4096)", "print",
-    "field_with_length(\"a\")", "field_with_length(\"b\")", "field_with_length(\"\")", "field(\"a\")", "field_ensure(\"a\",INTEGER)",
+    "field_with_length(\"a\")", "field_with_length(\"b\")", "field_with_length(\"\")", "field(\"a\")", "field_with_length(300 x 0xfe)", "field_ensure(\"a\",INTEGER)",
     "field_with_length(NULL)", "init_on_other_buffers"
 };
 static bool is_lookup(int op) { return op >= OP_FIELD_A && op <= OP_ENSURE_A_INT; }
@@ -324,6 +324,8 @@ static bool do_op(shadow *sh, int op, mismatch *mm, bool counting)
     case OP_FIELD_B: { char *q = (char *) vf_xmalloc(1); q[0] = 'b'; ret = binson_parser_field_with_length(p, q, 1); free(q); break; }
     case OP_FIELD_EMPTY: { char *q = (char *) vf_xmalloc(1); ret = binson_parser_field_with_length(p, q + 1, 0); free(q); break; }
     case OP_FIELDZ_A: { char *q = (char *) vf_xmalloc(2); q[0] = 'a'; q[1] = 0; ret = binson_parser_field(p, q); free(q); break; }
+    /* a query longer than any document here that sorts after every name it meets: each name on the way is compared with it */
+    case OP_FIELD_LONG: { char *q = (char *) vf_xmalloc(300); memset(q, 0xfe, 300); ret = binson_parser_field_with_length(p, q, 300); free(q); break; }
     case OP_ENSURE_A_INT: { char *q = (char *) vf_xmalloc(2); q[0] = 'a'; q[1] = 0; ret = binson_parser_field_ensure(p, q, BINSON_TYPE_INTEGER); free(q); break; }
     case OP_FIELD_NULL: ret = binson_parser_field_with_length(p, NULL, 0); break;
     default: vf_die("bad op");
@@ -463,7 +465,7 @@ static bool do_op(shadow *sh, int op, mismatch *mm, bool counting)
             else { memset(sh, 0, sizeof *sh); sh->unknown = 1; }
             break;
         }
-        case OP_NEXT: case OP_NEXT_ENS_INT: case OP_NEXT_ENS_OBJ: case OP_FIELD_A: case OP_FIELD_B: case OP_FIELD_EMPTY: case OP_FIELDZ_A: case OP_ENSURE_A_INT:
+        case OP_NEXT: case OP_NEXT_ENS_INT: case OP_NEXT_ENS_OBJ: case OP_FIELD_A: case OP_FIELD_B: case OP_FIELD_EMPTY: case OP_FIELDZ_A: case OP_FIELD_LONG: case OP_ENSURE_A_INT:
             if (!sh->unknown) sh->fresh = 1;
             break;
         default: break;
@@ -920,7 +922,7 @@ static void towers(void)
 #define WBASE (1ULL << 40)
 static int L_FRAMED, L_UNFRAMED, N_DOC, L_CORE;
 static wexp_cfg WCF;
-static const int walpha_small[] = { WO_OBJ_BEGIN, WO_OBJ_END, WO_ARR_BEGIN, WO_TRUE, WO_INT_1, WO_INT_128, WO_INT_2P31, WO_DOUBLE, WO_STR_0, WO_STR_1, WO_STR_128, WO_STRZ_AB, WO_BYT_1, WO_RAW_0, WO_RAW_2, WO_P2W };
+static const int walpha_small[] = { WO_OBJ_BEGIN, WO_OBJ_END, WO_ARR_BEGIN, WO_TRUE, WO_INT_1, WO_INT_128, WO_INT_2P31, WO_DOUBLE, WO_STR_0, WO_STR_1, WO_STR_128, WO_STRZ_AB, WO_BYT_1, WO_RAW_0, WO_RAW_2, WO_P2W, WO_P2W_REFUSED };
 
 static void worker(int w, int W, uint64_t start)
 {
